@@ -222,18 +222,19 @@ def _iter_zones(zone: "Zone"):
 
 def _unique_sheet_name(base: str, used: set[str]) -> str:
     """Return an Excel-safe, unique sheet name capped at 31 chars."""
+    # Excel compares sheet names case-insensitively: track them case-folded
     cleaned = _sanitize_sheet_name(base)
     candidate = cleaned[:31] or "Sheet"
-    if candidate not in used:
-        used.add(candidate)
+    if candidate.casefold() not in used:
+        used.add(candidate.casefold())
         return candidate
 
     for idx in range(2, 1000):
         suffix = f" ({idx})"
         trimmed = candidate[: 31 - len(suffix)] if len(candidate) + len(suffix) > 31 else candidate
         alt = f"{trimmed}{suffix}"
-        if alt not in used:
-            used.add(alt)
+        if alt.casefold() not in used:
+            used.add(alt.casefold())
             return alt
 
     raise ValueError("Unable to allocate unique sheet name.")
